@@ -223,36 +223,23 @@ def Sleep(t):
 @as_function_node("slice")
 def Slice(start=None, stop=NOT_DATA, step=None):
     """
-    Creates a slice object.
+    Creates a slice object, just like `slice(start, stop, step)`.
+
+    Open-ended slices are allowed, so that output injection like `channel[other:]`,
+    `channel[:stop:other]` or `channel[::other]` means what it means in python.
 
     Args:
         start (int | None): The start index. If None (Default), slicing starts from the
             beginning.
-        stop (int | None): The stop index. If None or NOT_DATA (Default), slicing goes
-            until the end.
+        stop (int | None): The stop index. If None, slicing goes until the end. Has no
+            default (NOT_DATA), so the node is not ready until a stop is provided.
         step (int | None): The step index. If None (Default), slicing proceeds with a
             step of 1.
 
     Returns:
         slice: The created slice object.
-
-    Raises:
-        ValueError: If the arguments are not valid for creating a slice.
     """
-    if start is None:
-        if stop is None:
-            raise ValueError(
-                "Slice must define at least start or stop, but both are None"
-            )
-        elif step is not None:
-            raise ValueError("If step is provided, start _must_ be provided")
-        else:
-            s = slice(stop)
-    elif stop is None:
-        raise ValueError("If start is provided, stop _must_ be provided")
-    else:
-        s = slice(start, stop, step)
-    return s
+    return slice(start, stop, step)
 
 
 @as_function_node("object")
